@@ -71,6 +71,7 @@ class ApiAdapter:
         self.km = km
         self.vm = vm
         self.clock = clock
+        self.index_forms = False     # sequential histories: some push / pull calls go through Index.push / Index.pull
 
     def call(self, c, name, a, form=0):
         try:
@@ -191,7 +192,9 @@ class ApiAdapter:
             pv = self._store_args(a)
             prefix = None if not a['p'] else '' if a['p'] == [-1] else ''.join(chr(x) for x in a['p'])
             side = 'back' if a['back'] else 'front'
-            if form == 2 and type(pv) is bytes:
+            if self.index_forms and form == 1 and not a['ttl'] and not a['tag'] and type(c) is self.dc.Cache:
+                r = self.dc.Index.fromcache(c).push(pv, prefix=prefix, side=side)     # the Index forwards to the same cache
+            elif form == 2 and type(pv) is bytes:
                 r = c.push(io.BytesIO(pv), prefix=prefix, side=side, expire=ttl_py(a['ttl']),
                            read=True, tag=tag_py(a['tag']))
             else:
@@ -201,7 +204,10 @@ class ApiAdapter:
             prefix = None if not a['p'] else '' if a['p'] == [-1] else ''.join(chr(x) for x in a['p'])
             side = 'back' if a['back'] else 'front'
             fx, ft = bool(a['fx']), bool(a['ft'])
-            r = getattr(c, name)(prefix=prefix, default=(SENT, SENT), side=side, expire_time=fx, tag=ft, **rt)
+            if self.index_forms and name == 'pull' and form == 1 and not fx and not ft and type(c) is self.dc.Cache:
+                r = self.dc.Index.fromcache(c).pull(prefix=prefix, default=(SENT, SENT), side=side)
+            else:
+                r = getattr(c, name)(prefix=prefix, default=(SENT, SENT), side=side, expire_time=fx, tag=ft, **rt)
             p = self._payload(r, fx, ft, item=True)
             return R('miss') if p is None else R('item', p)
         if name == 'peekitem':
@@ -256,6 +262,7 @@ class SeqRunner:
                                           isolation_level=None)
         ((self.listener.page_size,),) = self.obs.execute('PRAGMA page_size').fetchall()
         self.api = ApiAdapter(diskcache, self.km, self.vm, self.clock)
+        self.api.index_forms = True
         self.events = []
 
     def close(self):
